@@ -251,3 +251,72 @@ func instrIndex(in ssa.Instruction) int {
 	}
 	return -1
 }
+
+// checkLaneLoopExits (R06.exit): a lane loop visits all 64 lanes. Its only exit is the loop test
+// at the header; a `break` or `return` in the body that depends on one lane's data ends the
+// instruction for every higher lane (a guard clause written with break instead of continue), so
+// their results depend on a lower lane's input.
+func checkLaneLoopExits(c *core.Ctx, pkgs []string) {
+	st := c.Rule("R06.exit", "a lane loop (a loop whose counter is the lane argument of an operand access) is left only through its own loop test: no edge leads from a block of the loop body to a block outside the loop, and no return lies inside it. A data-dependent break ends the instruction for all higher lanes, which keep their old destination registers: lane j's result then depends on lane i < j", 300)
+	for _, rel := range pkgs {
+		for _, fn := range c.SrcFuncs(rel) {
+			headers := map[*ssa.BasicBlock]bool{}
+			for _, b := range fn.Blocks {
+				for _, in := range b.Instrs {
+					name, cc := stateMethod(in)
+					switch name {
+					case "ReadOperand", "WriteOperand", "ReadOperandBytes", "WriteOperandBytes":
+						if phi := ivOf(cc.Args[1]); phi != nil {
+							if l := analyseLoop(phi); l != nil && l.why == "" {
+								headers[phi.Block()] = true
+							}
+						}
+					}
+				}
+			}
+			for h := range headers {
+				// natural loop of the back edges into h
+				loop := map[*ssa.BasicBlock]bool{h: true}
+				var stack []*ssa.BasicBlock
+				for _, p := range h.Preds {
+					if h.Dominates(p) {
+						stack = append(stack, p)
+					}
+				}
+				if len(stack) == 0 {
+					continue
+				}
+				for len(stack) > 0 {
+					x := stack[len(stack)-1]
+					stack = stack[:len(stack)-1]
+					if loop[x] {
+						continue
+					}
+					loop[x] = true
+					stack = append(stack, x.Preds...)
+				}
+				st.Instances++
+				c.MarkAnalysed(fn)
+				var bad ssa.Instruction
+				for b := range loop {
+					last := b.Instrs[len(b.Instrs)-1]
+					if _, isRet := last.(*ssa.Return); isRet {
+						bad = last
+					}
+					if b == h {
+						continue
+					}
+					for _, s := range b.Succs {
+						if !loop[s] {
+							bad = last
+						}
+					}
+				}
+				st.Ob(bad == nil)
+				if bad != nil {
+					c.ReportAt("R06.exit", fn, bad.Pos(), "lane-loop-left-early:"+core.FuncName(fn), core.FuncName(fn)+" leaves its lane loop from inside the body (a break or return that depends on the current lane's data): every higher active lane is skipped and keeps its old destination register, so its result depends on a lower lane's input and a permutation of the lanes does not permute the results")
+				}
+			}
+		}
+	}
+}
